@@ -442,3 +442,8 @@ mod tests {
         Ok(())
     }
 }
+
+// verification hook (guard: cfg(kani), set only by the Kani compiler): harnesses live in /verif/kani
+#[cfg(kani)]
+#[path = "/verif/kani/binarysorted.rs"]
+mod verif_kani;
